@@ -1000,7 +1000,9 @@ static INSTALL: std::sync::Once = std::sync::Once::new();
 /// Install the hook and scale the receiver's delays (700 ms retry back-off → 7 µs).
 pub fn install() {
     INSTALL.call_once(|| {
-        eb::verif::set_delay_divisor(100_000);
+        // (under Miri: 700 ms → 700 µs, so that an idle receiver thread really sleeps instead of
+        // consuming interpretation time)
+        eb::verif::set_delay_divisor(if cfg!(miri) { 1_000 } else { 100_000 });
         eb::verif::set_hook(Some(hook));
     });
 }
@@ -1390,7 +1392,9 @@ fn exec_thread(sc: Arc<ScCtx>, receiver: Receiver<Q>, proc: Arc<Mutex<Processor>
                 }
             }
         } else {
-            thread::yield_now();
+            // Miri interleaves all threads on one OS thread: a busy-polling executor would
+            // eat the interpretation time of the actors, so let it sleep (real clock)
+            thread::sleep(Duration::from_micros(100));
         }
     };
     leave();
